@@ -36,7 +36,7 @@ REACH = [("yamlpath/commands/yaml_paths.py", "search_for_paths,yield_children", 
          ("yamlpath/commands/yaml_paths.py", "process_yaml_file,print_results,get_search_term", "yaml_paths CLI glue"),
          ("yamlpath/common/searches.py", "search_anchor", "Searches.search_anchor")]
 SIZES = {"quick": dict(lib=200000, cli=800), "thorough": dict(lib=1200000, cli=3000)}
-REQUIRED_COUNTERS = ["lib_cases", "cli_cases", "resolved_paths", "anchor_docs", "expand_cases", "cli_escaped_terms", "multi_expression_subprocess_cases"]
+REQUIRED_COUNTERS = ["lib_cases", "cli_cases", "resolved_paths", "anchor_docs", "expand_cases", "cli_escaped_terms", "multi_expression_subprocess_cases", "cli_route_dash", "cli_route_implicit"]
 OPS = {"=": PathSearchMethods.EQUALS, "^": PathSearchMethods.STARTS_WITH, "$": PathSearchMethods.ENDS_WITH,
        "%": PathSearchMethods.CONTAINS, ">": PathSearchMethods.GREATER_THAN, "<": PathSearchMethods.LESS_THAN,
        ">=": PathSearchMethods.GREATER_THAN_OR_EQUAL, "<=": PathSearchMethods.LESS_THAN_OR_EQUAL,
@@ -334,12 +334,22 @@ def run_case(ctx, text, data, op, term, inv, mode, alias, expand, sep, via="libr
         case["cli_expression"] = cli_expr
         if cli_expr != case["expression"]:
             ctx.counters["cli_escaped_terms"] = ctx.counters.get("cli_escaped_terms", 0) + 1
-        argv = ["-S", "-X", "-F", "-t", sep, "-s", cli_expr]
+        argv = ["-X", "-F", "-t", sep, "-s", cli_expr]
         argv += {"values": [], "keys": ["-k"], "keysonly": ["-K"]}[mode]
         argv += ["-" + alias]
         if expand:
             argv.append("-m")
-        r = cli.run("yaml_paths", argv + [f])
+        # the document is delivered as a file, as explicit STDIN (-) or as implicit STDIN (no file argument at all):
+        # three routes through main(), one outcome
+        route = ctx.rng.choice(["file", "file", "dash", "implicit"])
+        case["route"] = route
+        ctx.counters["cli_route_" + route] = ctx.counters.get("cli_route_" + route, 0) + 1
+        if route == "file":
+            r = cli.run("yaml_paths", ["-S"] + argv + [f])
+        elif route == "dash":
+            r = cli.run("yaml_paths", argv + ["-"], stdin_text=text + "\n")
+        else:
+            r = cli.run("yaml_paths", argv, stdin_text=text + "\n")
         if r["exc"]:
             ctx.violation("cli-crash", {"case": case, "summary": r["exc"][:200]})
             return
